@@ -138,9 +138,25 @@ const (
 	DriveYielded DriveStatus = iota
 	DriveBlocked
 	DriveFinished
+	DriveChoice // the thread reached a data choice (Choose / map order): Drive again with the pick
 )
 
-func (d DriveStatus) String() string { return [...]string{"yielded", "blocked", "finished"}[d] }
+func (d DriveStatus) String() string {
+	return [...]string{"yielded", "blocked", "finished", "choice"}[d]
+}
+
+// DriveChoices is the number of alternatives when Drive returned DriveChoice.
+//
+//go:norace
+func DriveChoices() int {
+	if t := cur(); t != nil {
+		return t.qn
+	}
+	return 0
+}
+
+//go:norace
+func setQN(t *Thread, n int) { t.qn = n }
 
 // Query returns the transitions thread tid could take right now (empty: blocked or finished).
 // Only for the sequential driver: the calling thread must be the only one not parked.
@@ -1331,6 +1347,10 @@ func (c *controller) handleDriver(step, n int, reqs []request, states []int32) b
 	}
 	if !c.driveFirst && reqs[tgt].yield {
 		return finish(DriveYielded)
+	}
+	if !c.driveFirst && states[tgt] == stParked && reqs[tgt].kind == OpChoose {
+		setQN(&threads[d], reqs[tgt].nchoose)
+		return finish(DriveChoice)
 	}
 	c.involving(tgt, reqs, states)
 	if len(c.trans) == 0 {
